@@ -286,7 +286,8 @@ def run(prop, tier, replay=None):
         cpath = scratch.path("cases.jsonl")
         if replay:
             rp = json.load(open(replay))
-            cases = rp["cases"]
+            cases = rp["cases"] if rp.get("replay_driver") != "conc" else []
+            replay_ups = rp["cases"] if rp.get("replay_driver") == "conc" else None
             design = dict(states=0, transitions=0)
         else:
             fams = FAMILIES[prop]
@@ -389,7 +390,7 @@ def run(prop, tier, replay=None):
         for cid, formula, e in extra_failed:
             consider(cid, formula, e)
         ustat = collections.Counter()
-        if prop == "C06" and not replay:
+        if prop == "C06" and (not replay or replay_ups):
             # HttpBody chunk framing: uploads of every length around multiples of the chunk size, through Recv(),
             # from readers that end with (0, EOF), with (n, EOF), one byte at a time, and through gzip
             ups = []
@@ -399,6 +400,8 @@ def run(prop, tier, replay=None):
                         if tier == "quick" and n > 2 * limit + 3 and n % limit not in (0, 1, limit - 1):
                             continue
                         ups.append(dict(fam="upload", id=len(ups) + 1, len=n, limit=limit, mode=mode))
+            if replay:
+                ups = [dict(u, id=i + 1) for i, u in enumerate(replay_ups)]
             upath, utrace = scratch.path("uploads.jsonl"), scratch.path("uploads.ndjson")
             with open(upath, "w") as f:
                 for u in ups:
@@ -414,7 +417,7 @@ def run(prop, tier, replay=None):
                 ev = json.loads(ulines[f[1] - 1])
                 if f[2] not in ("UploadComplete", "ChunkLimit"):
                     continue
-                sig = dict(module="Framing", formula=f[2], codec="body", mode=ev["mode"])
+                sig = dict(module="Framing", formula=f[2], codec="body", mode=ev["mode"], code=None)
                 kf = C.match_finding(findings, prop, sig)
                 if kf:
                     known[kf["id"]] += 1
